@@ -351,14 +351,39 @@ func readFaults(data []byte, label string) {
 		name string
 		err  error
 		once bool
-	}{{"error-once-then-the-data-goes-on", nil, false}, {"unexpected-eof-error", io.ErrUnexpectedEOF, false}, {"closed-pipe-error", io.ErrClosedPipe, false}, {"error-once-then-eof", nil, true}, {"unexpected-eof-once-then-eof", io.ErrUnexpectedEOF, true},
+	}{{"error-together-with-the-last-bytes", nil, false}, {"error-once-then-the-data-goes-on", nil, false}, {"unexpected-eof-error", io.ErrUnexpectedEOF, false}, {"closed-pipe-error", io.ErrClosedPipe, false}, {"error-once-then-eof", nil, true}, {"unexpected-eof-once-then-eof", io.ErrUnexpectedEOF, true},
 		{"wrapped-eof-error", fmt.Errorf("read: %w", io.EOF), false}, {"path-error-eof", &fs.PathError{Op: "read", Path: "source", Err: io.EOF}, false},
 		{"wrapped-unexpected-eof-error", fmt.Errorf("read: %w", io.ErrUnexpectedEOF), false}, {"short-buffer-error", io.ErrShortBuffer, false}, {"no-progress-error", io.ErrNoProgress, false}} {
+		// (an error that comes together with the bytes in front of it is only
+		// judged where the reader still needs data behind it: the standard
+		// library's ReadFull drops an error that arrives with the last byte it
+		// was asked for, and a reader that has everything never asks again)
+		needEnd := len(data)
+		if v.name == "error-together-with-the-last-bytes" {
+			needEnd = 0
+			if perr == nil && len(data) >= 14 {
+				want := int(data[10])<<8 | int(data[11])
+				pos, seen := 14, 0
+				for pos+8 <= len(data) && seen < want {
+					ln := int(data[pos+4])<<24 | int(data[pos+5])<<16 | int(data[pos+6])<<8 | int(data[pos+7])
+					if string(data[pos:pos+4]) == "MTrk" {
+						seen++
+					}
+					pos += 8 + ln
+				}
+				if seen == want && pos <= len(data) {
+					needEnd = pos
+				}
+			}
+		}
 		for k := 0; k < len(data); k++ {
+			if k >= needEnd {
+				break
+			}
 			if len(data) > 1500 && k%9 != 0 && k > 64 && k < len(data)-64 {
 				continue // long files: every ninth offset and both ends (the plain error value below takes every offset)
 			}
-			fr := &faultio.FailReader{Data: data, At: k, Err: v.err, Once: v.once, Resume: v.name == "error-once-then-the-data-goes-on"}
+			fr := &faultio.FailReader{Data: data, At: k, Err: v.err, Once: v.once, Resume: v.name == "error-once-then-the-data-goes-on", WithData: v.name == "error-together-with-the-last-bytes"}
 			var err error
 			c := engine.Catch(func() { _, err = smf.ReadFrom(fr) })
 			ctx.Eval()
